@@ -11,6 +11,7 @@ import XotModel.Lemmas.FcloneMain
 import XotModel.Lemmas.FcloneStrict
 import XotModel.Lemmas.FcloneLocal4
 import XotModel.Lemmas.FcloneLocal5
+import XotModel.Lemmas.FclonePrefix8
 import XotModel.Model.FcloneModel
 import XotModel.Generated
 
@@ -159,6 +160,46 @@ theorem C12_prefixes_non_element (f : Forest) (inv : f.Inv) (node : Nat) (src : 
     simp [Forest.isElement, Forest.value?, h3, hv]
   simp [this]
 
+/-- `clone_with_prefixes` of a live node cannot panic, whatever the iteration order: on an
+    element the insertion loop is `addSpec` (each missing prefix becomes a new namespace node
+    right after the namespace nodes already there). -/
+theorem C12_prefixes_total (f : Forest) (inv : f.Inv) (node : Nat) (live : f.isLive node = true)
+    (order : List (Nat × Nat)) : ∃ c, (f.cloneWithPrefixes node order).2 = some c := by
+  obtain ⟨src, hsrc⟩ := (Forest.isLive_iff f node).mp live
+  exact cloneWithPrefixes_total f inv node src hsrc order
+
+/-- The clone serialises on its own whenever the source serialised in place: if `to_string` of the
+    root of the tree containing the source element succeeds (`serialises` = no `MissingPrefix`, no
+    namespaced PI target), then `to_string(clone_with_prefixes(source))` succeeds — for EVERY
+    enumeration `order` of the hash map `inherited_prefixes(source)` (same entries, each prefix
+    once), and every vocabulary `env`.
+
+    Extra hypothesis `hmerge`: consolidation is off, or has never been off — then the clone is
+    literally the source (`C12_equal_strict`).  For a forest with adjacent text nodes and
+    consolidation switched back on the clone has them merged; text nodes play no part in
+    `serialises`, but that case is not proved here. -/
+theorem C12_prefixes (env : Env) (f : Forest) (inv : f.Inv)
+    (hmerge : f.everOff = false ∨ f.consolidation = false)
+    (node : Nat) (src : HTree) (rest : List HTree) (hpath : f.pathTo node = src :: rest)
+    (hel : src.value.isElement = true)
+    (hroot : ∀ r ∈ f.roots, HTree.pathTo node r = some (src :: rest) → f.serialises env r.handle = true)
+    (order : List (Nat × Nat)) (hord : ∀ b, b ∈ order ↔ b ∈ f.inheritedPrefixes env node)
+    (hfun : ∀ a ∈ order, ∀ b ∈ order, a.1 = b.1 → a = b) :
+    ∃ c, (f.cloneWithPrefixes node order).2 = some c ∧
+      (f.cloneWithPrefixes node order).1.serialises env c = true := by
+  cases src with
+  | node hs v Ks =>
+    cases v with
+    | element name =>
+      exact cloneWithPrefixes_serialises env f inv hmerge node hs name Ks rest hpath
+        (fun r hr hp => by rw [← serialises_root env f inv r hr]; exact hroot r hr hp) order hord hfun
+    | document => simp [HTree.value, Value.isElement] at hel
+    | text s => simp [HTree.value, Value.isElement] at hel
+    | pi t d => simp [HTree.value, Value.isElement] at hel
+    | comment s => simp [HTree.value, Value.isElement] at hel
+    | «attribute» a s => simp [HTree.value, Value.isElement] at hel
+    | «namespace» a s => simp [HTree.value, Value.isElement] at hel
+
 /-- `Xot::clone()` is the identity on the model value … -/
 theorem C12_store (s : Store) : s.clone = s := rfl
 
@@ -187,6 +228,15 @@ example : exForest.isLive 3 = true := by decide
 example : (exForest.cloneNode 3).2 = some 7 := by decide +kernel
 example : (exForest.cloneNode 0).2 = some 6 := by decide +kernel
 example : exForest.everOff = false := rfl
+/-- a vocabulary in which name 6 lies in namespace 2 (declared with prefix 2 on the ancestor) -/
+def exEnv : Env :=
+  { namespaces := [[], ['x'], ['u']], prefixes := [[], ['x','m','l'], ['p']],
+    names := [(['s'], 1), (['i'], 1), (['a'], 0), (['b'], 0), (['c'], 0), (['d'], 0), (['a'], 2)] }
+example : (exForest.pathTo 3).map HTree.handle = [3, 1, 0] := by decide +kernel
+example : exForest.serialises exEnv 0 = true := by decide +kernel
+example : exForest.inheritedPrefixes exEnv 3 = [(2, 2)] := by decide +kernel
+example : (exForest.cloneNode 3).1.serialises exEnv 7 = false := by decide +kernel
+example : (exForest.cloneWithPrefixes 3 [(2, 2)]).1.serialises exEnv 7 = true := by decide +kernel
 /-- a history on the source's tree whose arguments avoid the clone -/
 example : ∀ op ∈ [EditOp.setText 5 ['y'], EditOp.remove 4, EditOp.append 1 5], ∀ a ∈ op.args, a < 6 := by decide
 
